@@ -2,6 +2,8 @@ package main
 
 import (
 	"crypto/md5"
+	"crypto/sha1"
+	"crypto/sha256"
 	"fmt"
 	"io/ioutil"
 	"os"
@@ -22,6 +24,8 @@ import (
 // states: ok | missing | dir (the source is a directory) | dirfull (a non-empty directory) |
 //         blocked (the destination name is occupied by a non-empty directory) |
 //         occupied (the destination already holds a longer regular file of that name)
+//         cksum (the name is listed ONLY in the Checksums-Sha1 / Checksums-Sha256 sections, not in Files)
+// Every other file is listed in Files and in both checksum sections, as in a real .dsc / .changes.
 func init() {
 	ops["upload"] = func(a []string) string {
 		kind, op, ctlname, ctlstate := arg(a, 0), arg(a, 1), arg(a, 2), arg(a, 3)
@@ -63,9 +67,14 @@ func init() {
 				ioutil.WriteFile(filepath.Join(dst, name), []byte(content+strings.Repeat("Z", 250)), 0600)
 			}
 		}
-		var listing strings.Builder
+		var listing, sha1s, sha256s strings.Builder
 		for i := 5; i+2 < len(a); i += 3 {
 			name, state, content := a[i], a[i+1], a[i+2]
+			fmt.Fprintf(&sha1s, " %x %d %s\n", sha1.Sum([]byte(content)), len(content), name)
+			fmt.Fprintf(&sha256s, " %x %d %s\n", sha256.Sum256([]byte(content)), len(content), name)
+			if state == "cksum" {
+				continue
+			}
 			if !strings.ContainsAny(name, "/") && name != "" && name != "." && name != ".." {
 				place(name, state, content)
 			}
@@ -79,6 +88,9 @@ func init() {
 		text := "Format: 1.0\nSource: x\nVersion: 1.0-1\nMaintainer: A B <a@b.c>\nFiles:\n" + listing.String()
 		if listing.Len() == 0 {
 			text = "Format: 1.0\nSource: x\nVersion: 1.0-1\nMaintainer: A B <a@b.c>\n"
+		}
+		if sha1s.Len() > 0 {
+			text += "Checksums-Sha1:\n" + sha1s.String() + "Checksums-Sha256:\n" + sha256s.String()
 		}
 		ctlpath := filepath.Join(src, ctlname)
 		ioutil.WriteFile(ctlpath, []byte(text), 0644)
